@@ -7,9 +7,11 @@
 #include <time.h>
 #include <unistd.h>
 #include <vector>
+#include <thread>
 static std::vector<uint64_t> g_nd, g_tns; static size_t g_ndi, g_ti; static int g_failed;
 extern "C" {
 void vf_init(); void vf_thread_0();
+void vf_seq_1() __attribute__((weak)); void vf_seq_2() __attribute__((weak)); void vf_seq_3() __attribute__((weak));
 uint64_t vf_nondet64() noexcept { if (g_ndi < g_nd.size()) return g_nd[g_ndi++]; fprintf(stderr, "REPLAY: more nondet calls than the witness has\n"); g_ndi++; return 0; }
 void vf_assert(bool c) noexcept { if (!c) { printf("ASSERT-FAILED unlabelled\n"); g_failed = 1; } }
 void vf_check(bool c, int label) noexcept { if (!c) { printf("ASSERT-FAILED L%d\n", label); g_failed = 1; } }
@@ -27,7 +29,12 @@ int main(int argc, char** argv) {
   int i = 1;
   for (; i < argc && strcmp(argv[i], "--"); ++i) g_nd.push_back(strtoull(argv[i], 0, 10));
   for (++i; i < argc; ++i) g_tns.push_back(strtoull(argv[i], 0, 10));
-  vf_init(); vf_thread_0();
+  vf_init();
+  // every generation runs on its own OS thread, one after the other (real thread_local storage, real thread exit)
+  { std::thread t(vf_thread_0); t.join(); }
+  if (vf_seq_1) { std::thread t(vf_seq_1); t.join(); }
+  if (vf_seq_2) { std::thread t(vf_seq_2); t.join(); }
+  if (vf_seq_3) { std::thread t(vf_seq_3); t.join(); }
   printf(g_failed ? "REPLAY-RESULT violated\n" : "REPLAY-RESULT held\n");
   return g_failed ? 1 : 0;
 }
